@@ -147,7 +147,7 @@ class Flow:
     def run(self):
         env = {'_pos': 'ENTRY', '_result': 'IN', '_text': 'TEXT'}
         env.update(self.entry_env)
-        s0 = St(env=env, st=None, hist=() if self.use_hist else None)
+        s0 = St(env=env, st=None, hist=() if self.use_hist else None, bl=getattr(self, 'initial_bl', None))
         o = self.block(self.stmts, {s0})
         if o['break'] or o['continue']:
             raise Unsupported('break/continue outside a loop in emitted skeleton')
